@@ -46,6 +46,16 @@ CLAIMED["C01"] = (
     "with synthetic results and compared (position, orientation, shift/rotation/score features) inside Coq. Sub-pixel recovery "
     "of a simulated particle through single/batch/group/multi-template loaders x ZNCC/NCC/PCC is a numeric oracle (partial).",
     "regenerated anchors + Coq ring theorems + in-Coq correspondence + end-to-end oracle")
+CLAIMED["C03"] = (
+    "Theorems (Coq, every table = every history, any interleaving of image ids): the i-th loading task of a batch loader is the "
+    "i-th molecule, taken from the group (tomogram) that molecule is registered with (scatter by rank within its image-id group); "
+    "group-by-first-appearance partitions the table (permutation, distinct keys, constant key per group, completeness); head/tail "
+    "return exactly a prefix/suffix; refuted witness for the pre-fix concatenation order. Tie: structural anchors regenerated from "
+    "_batch.py/_base.py/_group.py; random operation histories (filter/head/tail/sort/sample/subset-replace, groupby) on real "
+    "Subtomogram/Batch loaders whose tomograms encode (image, position): tags, image ids, loaded voxels, apply rows, group keys/"
+    "members and purity of all earlier objects are checked against the model inside Coq; sort/sample are validated as (sorted) "
+    "permutation / sub-multiset. align/score/landscape rows on interleaved batches: metamorphic oracle.",
+    "regenerated anchors + Coq list theorems + in-Coq history correspondence")
 NOT_YET = "machinery for this property is not built yet in this revision (see DESIGN.md §6 for the planned model)"
 
 def main():
